@@ -4,6 +4,7 @@ import PyImpSpec.DataSet.Model
 import PyImpSpec.Param.Model
 import PyImpSpec.Impedance.CQ
 import PyImpSpec.Gen.Kernels
+import PyImpSpec.Tlm
 
 /-! Line-protocol driver: one request per line (`<model> <op> <args…>`), one canonical reply per line.
 Run with `lake env lean --run Driver/Main.lean`.  The harness sends the same inputs to the real
@@ -109,6 +110,27 @@ def kerReply (which sym : String) (binds : List String) : String :=
       | _ => none
     let z := e.evalF fun k => match env.find? (·.1 = k) with | some (_, v) => ⟨v, 0⟩ | none => ⟨0, 0⟩
     s!"ok {z.re.toBits} {z.im.toBits}"
+
+
+/-! ### general transmission line model: decision tree + regenerated branch formulas -/
+
+def parseKind (s : String) : Tlm.Kind :=
+  if s = "open" then .opn else if s = "short" then .short else .finite
+
+def tlmReply (which : String) (ks : List String) (binds : List String) : String :=
+  match ks.map parseKind with
+  | [a, b, c, d, e] =>
+    let env : List (String × CF) := binds.filterMap fun bnd =>
+      match bnd.splitOn "=" with
+      | [k, v] => match v.splitOn ";" with
+        | [re, im] => some (k, ⟨parseFloat re, parseFloat im⟩)
+        | _ => none
+      | _ => none
+    let base : String → CF := fun k => match env.find? (·.1 = k) with | some (_, v) => v | none => ⟨0, 0⟩
+    match Tlm.value CF.ops (which = "impl") ⟨a, b, c, d, e⟩ base with
+    | some z => s!"ok {z.re.toBits} {z.im.toBits}"
+    | none => "err NotImplementedError"
+  | _ => "bad-op"
 
 /-! ### DataSet -/
 
@@ -245,6 +267,7 @@ def step (st : DState) (line : String) : DState × String :=
   | ["cdc", fl] => (st, cdcReply fl "")
   | "ds" :: args => dsStep st args
   | "pa" :: args => paStep st args
+  | "tlm" :: which :: a :: b :: c :: d :: e :: binds => (st, tlmReply which [a, b, c, d, e] binds)
   | "ker" :: which :: sym :: binds => (st, kerReply which sym binds)
   | "imp" :: n :: toks => (st, impReply n.toNat! toks)
   | _ => (st, "bad-op")
